@@ -603,12 +603,16 @@ class Gen:
         for (tl, tx) in block:
             self.out.emit(tx, ("tpl", rel_tpl, tl), self._clause_tags(tx, tags), sig_name)
         self.out.emit("{", None, tags, sig_name)
-        self.out.emit(f"    let mut {var} = {var}_in;", None, tags, sig_name)
+        ret = opts.get("ret")  # ret=<expr without spaces>: the segment reads only its parameters and yields this expression (no threaded variable)
+        if not ret:
+            self.out.emit(f"    let mut {var} = {var}_in;", None, tags, sig_name)
         for (tl, tx) in proof_lines:
             self.out.emit(tx, ("tpl", rel_tpl, tl), tags, sig_name)
         base_line = line_of(src.text, ob + 1 + s0)
         self.out.emit(seg.rstrip("\n"), ("repo", src.rel, base_line), tags, sig_name)
-        if not to_end:
+        if ret:
+            self.out.emit(f"    {ret}", None, tags, sig_name)
+        elif not to_end:
             self.out.emit(f"    {var}", None, tags, sig_name)
         self.out.emit("}", None, tags, sig_name)
         self.segments = getattr(self, "segments", {})
